@@ -98,9 +98,24 @@ def orElse (a b : Bytes) : Bytes := if a.isEmpty then b else a
 
 def toLowerB (c : UInt8) : UInt8 := if 65 ≤ c ∧ c ≤ 90 then c + 32 else c
 
-/-- `strings.EqualFold` restricted to ASCII input (exact for ASCII strings; on-disk link names
-    produced by this code are ASCII because valid parts are) -/
-def equalFold (a b : Bytes) : Bool := a.map toLowerB == b.map toLowerB
+/-- `strings.EqualFold(a, l)` against an already lower-cased ASCII `a`, for ARBITRARY bytes `l`: an ASCII byte of
+    `l` matches under ASCII case folding; the only non-ASCII runes whose simple-fold orbit contains an ASCII
+    letter are U+212A KELVIN SIGN (E2 84 AA, folds to `k`) and U+017F LONG S (C5 BF, folds to `s`); every other
+    non-ASCII or invalid byte of `l` is a mismatch. -/
+def foldMatch : Bytes → Bytes → Bool
+  | [], l => l.isEmpty
+  | w :: ws, l =>
+    match l with
+    | [] => false
+    | b :: ls =>
+      if b < 128 then toLowerB b == w && foldMatch ws ls
+      else if b == 0xE2 && ls.take 2 == [0x84, 0xAA] then w == 107 && foldMatch ws (ls.drop 2)
+      else if b == 0xC5 && ls.take 1 == [0xBF] then w == 115 && foldMatch ws (ls.drop 1)
+      else false
+
+/-- `strings.EqualFold(a, l)`, exact whenever `a` is ASCII (it always is here: `a` is built from valid name
+    parts); `l` may be any byte string (an on-disk link name). -/
+def equalFold (a l : Bytes) : Bool := foldMatch (a.map toLowerB) l
 
 /-! ## path/filepath (unix): Clean and Join -/
 
@@ -272,7 +287,10 @@ def isValidN (n : Name) : Bool :=
 def isValidNv (fixed : Bool) (n : Name) : Bool :=
   isValidN n && !(fixed && !n.host.isEmpty && n.ns.isEmpty)
 
-/-- `names.Name.IsFullyQualified` -/
+/-- `names.Name.IsValid` of the CURRENT tree (N1 repaired upstream in 1ba9043ad) -/
+def isValidNCur (n : Name) : Bool := isValidNv true n
+
+/-- `names.Name.IsFullyQualified` (the same under both variants, see `C13.isFQN_eq_cur`) -/
 def isFQN (n : Name) : Bool :=
   isValidN n && !n.host.isEmpty && !n.ns.isEmpty && !n.model.isEmpty && !n.tag.isEmpty
 
@@ -400,6 +418,31 @@ def manifestPath (dir : Bytes) (links : List Bytes) (name : Bytes) : Option Byte
     match links.find? (equalFold maybe) with
     | some l => some (pathJoin [dir, l])
     | none => some (pathJoin [dir, maybe])
+
+/-- `blob.splitNameDigest` -/
+def splitNameDigest (s : Bytes) : Bytes × Bytes :=
+  match splitLast (· == cAt) s with
+  | some (b, a, _) => (b, a)
+  | none => (s, [])
+
+/-- what `DiskCache.Resolve(name)` goes on to read: a digest given in the name, or the manifest file -/
+inductive ResolveTarget
+  | digest (sum : Bytes)
+  | manifest (path : Bytes)
+  | invalid
+  deriving DecidableEq, Repr
+
+/-- the addressing part of `DiskCache.Resolve` -/
+def cacheResolve (dir : Bytes) (links : List Bytes) (s : Bytes) : ResolveTarget :=
+  let (name, digest) := splitNameDigest s
+  if !digest.isEmpty then
+    match parseDigest digest with
+    | some d => .digest d
+    | none => .invalid
+  else
+    match manifestPath dir links name with
+    | some p => .manifest p
+    | none => .invalid
 
 /-! ## extended names (registry client) -/
 
